@@ -383,6 +383,8 @@ class LibCalls:
                 b = e.coerce(a, FLOAT).z
                 z = z3.If(z3.fpGT(b, z), b, z) if name == "max" else z3.If(z3.fpLT(b, z), b, z)
             return [(st, Val(FLOAT, z))]
+        if name in ("max", "min") and len(args) == 1 and args[0].t[0] == "carray":
+            return self.max_min(name, e.mk_list(("list", args[0].t[1]), z3.IntVal(args[0].t[2]), args[0].z), st, node)
         if name in ("max", "min") and len(args) == 1 and args[0].t[0] == "list":
             return self.max_min(name, args[0], st, node)
         if name in ("any", "all") and len(args) == 1 and args[0].t[0] == "list":
@@ -452,6 +454,9 @@ class LibCalls:
             if n is None:
                 raise Unsupported("isinstance with a symbolic class", node, e.path)
             n = n.split(".")[-1]
+            if k == "carray":
+                res.append(z3.BoolVal(n in ("Array", "object", "Iterable", "Sequence")))
+                continue
             if k == "int":
                 res.append(z3.BoolVal(n in ("int", "object")))
             elif k == "bool":
@@ -601,6 +606,8 @@ class LibCalls:
                 return [(st, e.mk_list(("list", d.t[2]), e.list_len(keys), at))]
             if kind == "items":
                 return [(st, Val(("itemlist",), (keys, d)))]
+        if k == "carray":
+            return [(st, e.mk_list(("list", v.t[1]), z3.IntVal(v.t[2]), v.z))]
         if k == "range":
             lo, hi, step = v.z
             if step.conc != 1:
@@ -661,6 +668,8 @@ class LibCalls:
                     return [(st, e.const_val(e.src.ctypes_layout(v.conc)[0]))]
             if v.t[0] == "symcls":
                 return [(st, Val(INT, self.sizeof_cls(v.z)))]
+            if v.t[0] == "elemctype":
+                return [(st, Val(INT, v.z))]
             raise Unsupported(f"ctypes.sizeof({tstr(v.t)})", node, e.path)
         if name == "os.getpid":
             v = e.fresh(INT, "pid")
